@@ -88,8 +88,10 @@ func (e extractor) extract(node ast.Node) {
 			exit(err)
 		}
 		var pluralVar = ""
-		if plural, ok := node.Body.Children()[0].(*ast.MsgPluralNode); ok {
-			pluralVar = " var=" + plural.VarName
+		if children := node.Body.Children(); len(children) > 0 { // {msg}{/msg} has none
+			if plural, ok := children[0].(*ast.MsgPluralNode); ok {
+				pluralVar = " var=" + plural.VarName
+			}
 		}
 		e.file.Messages = append(e.file.Messages, po.Message{
 			Comment: po.Comment{
